@@ -68,7 +68,18 @@ Record state := mkState {
 (* ---------------------------------------------------------------- fault plans, effects *)
 
 Inductive wr := WOk | WConflict | WNotFound | WErr.
-Inductive pout := POk | PInsufficient | PNotReady | PCreateErr | PGeneric.
+(* what cloudProvider.Create returns: success, or an error CHAIN (outermost layer first; the
+   innermost error is a plain one).  The code classifies it with errors.As, which walks the chain. *)
+Inductive elayer :=
+| YInsufficient            (* *cloudprovider.InsufficientCapacityError *)
+| YNotReady                (* *cloudprovider.NodeClassNotReadyError *)
+| YCreateErr               (* *cloudprovider.CreateError (carries a condition reason) *)
+| YWrap.                   (* fmt.Errorf("...: %w", _) *)
+Inductive pout := POk | PFail (chain : list elayer).
+Notation PInsufficient := (PFail (cons YInsufficient nil)).
+Notation PNotReady := (PFail (cons YNotReady nil)).
+Notation PCreateErr := (PFail (cons YCreateErr nil)).
+Notation PGeneric := (PFail nil).
 Inductive hout := HReady | HPending (d : Z) | HRequeue | HErr.
 Inductive dres := DDeleted | DNotFound | DFailed.
 
@@ -140,10 +151,36 @@ Definition node_eqb (a b : node) : bool :=
 
 Definition wr_eqb (a b : wr) : bool :=
   match a, b with WOk, WOk | WConflict, WConflict | WNotFound, WNotFound | WErr, WErr => true | _, _ => false end.
+Definition elayer_eqb (a b : elayer) : bool :=
+  match a, b with
+  | YInsufficient, YInsufficient | YNotReady, YNotReady | YCreateErr, YCreateErr | YWrap, YWrap => true
+  | _, _ => false end.
+Fixpoint chain_eqb (a b : list elayer) : bool :=
+  match a, b with
+  | [], [] => true
+  | x :: a', y :: b' => elayer_eqb x y && chain_eqb a' b'
+  | _, _ => false end.
 Definition pout_eqb (a b : pout) : bool :=
   match a, b with
-  | POk, POk | PInsufficient, PInsufficient | PNotReady, PNotReady | PCreateErr, PCreateErr | PGeneric, PGeneric => true
+  | POk, POk => true
+  | PFail x, PFail y => chain_eqb x y
   | _, _ => false end.
+
+(* errors.As(err, &target): some layer of the chain has the target type *)
+Definition has_layer (y : elayer) (c : list elayer) : bool := existsb (elayer_eqb y) c.
+Arguments has_layer : simpl never.
+
+(* the switch of launchNodeClaim: capacity first, then NodeClass readiness, CreateError last *)
+Inductive pclass := CkOk | CkInsufficient | CkNotReady | CkCreateErr | CkGeneric.
+Definition pclass_of (o : pout) : pclass :=
+  match o with
+  | POk => CkOk
+  | PFail c =>
+      if has_layer YInsufficient c then CkInsufficient
+      else if has_layer YNotReady c then CkNotReady
+      else if has_layer YCreateErr c then CkCreateErr
+      else CkGeneric
+  end.
 Definition dres_eqb (a b : dres) : bool :=
   match a, b with DDeleted, DDeleted | DNotFound, DNotFound | DFailed, DFailed => true | _, _ => false end.
 Definition eff_eqb (a b : eff) : bool :=
@@ -242,13 +279,14 @@ Definition launch (k : cfg) (pl : plan) (r0 : rs) : rs :=
     match cache_hit k r with
     | Some p => populate p r
     | None =>
-      match f_create pl with
-      | POk =>
+      let o := f_create pl in
+      match pclass_of o with
+      | CkOk =>
           let p := r_made r in
           populate p (add_eff (set_made r (S p) (p :: r_alive r)) (ECreate POk))
-      | PCreateErr => add_err (set_im (add_eff r (ECreate PCreateErr)) (cl_l (r_im r) LCreateErr)) KGeneric
-      | PGeneric => add_err (set_im (add_eff r (ECreate PGeneric)) (cl_l (r_im r) LFailed)) KGeneric
-      | o (* PInsufficient | PNotReady *) =>
+      | CkCreateErr => add_err (set_im (add_eff r (ECreate o)) (cl_l (r_im r) LCreateErr)) KGeneric
+      | CkGeneric => add_err (set_im (add_eff r (ECreate o)) (cl_l (r_im r) LFailed)) KGeneric
+      | _ (* CkInsufficient | CkNotReady *) =>
           let r := add_eff r (ECreate o) in
           let w := eff_wr (r_pc r) (f_del_launch pl) in
           let r := add_eff r (EDelLaunch w) in
